@@ -212,7 +212,7 @@ pub fn run(ctx: &Ctx) {
     ctx.set_rule("whole projects as in C01 (every named type is a project serde type or mapped; since the syntax defects were repaired no input class is steered around any more); every reference in types.ts / commands.ts / events.ts is resolved against per-module declaration tables in type space and value space, `types.X` against the exports of types.ts, index.ts against the list of files the run returned. evaluation = one generation run; non-trivial = a project type below a constructor at a parameter / return / channel site");
     ctx.set_exhaustive(false);
     ctx.assume("resolution follows the harness's parser and scope model for the emitted fragment");
-    let cases = ctx.tier.pick(2500, 40000);
+    let cases = ctx.tier.pick(2500, 300000);
     ctx.search("c02.project", cases, 400, |tape, stats| {
         let mut avoided = 0;
         let p = random_project(tape, false, &mut avoided);
